@@ -3,9 +3,12 @@
 //
 //	c05 c05    -in records.ndjson   replay Redaction_gen.tla records (spec -> code)
 //	c05 c05rec -out trace.ndjson    record seeded random redactions for Redaction_trace.tla (code -> spec)
+//	c05 c05calls                    what the earlier calls of the history dimension do (diagnostic)
 package main
 
 import (
+	"encoding/json"
+	"fmt"
 	"runtime/debug"
 
 	"verifharness/hx"
@@ -14,7 +17,15 @@ import (
 func init() {
 	debug.SetGCPercent(400) // allocation-heavy JSON work: fewer collections
 	hx.Register("c05", "replay Redaction_gen.tla records against RedactEventJSON / PDU.Redact / signature checks", func(a *hx.Args) error {
-		return hx.ReplayAll(a, replayOne)
+		return hx.ReplayAll(a, func(i int, raw json.RawMessage) hx.Result { return replayOne(a.Seed, i, raw) })
+	})
+	hx.Register("c05calls", "list what the earlier calls of the history dimension do in this build (diagnostic)", func(a *hx.Args) error {
+		for _, c := range allCalls {
+			for n, v := range versionsOfAlgo[c.Algo] {
+				fmt.Printf("%-9s algo %d %-14s %-13s version %-19s %s\n", c.Entry, c.Algo, c.Outcome, c.PType, v, perform(c, versionFor(c, v, n)))
+			}
+		}
+		return nil
 	})
 	hx.Register("c05rec", "record seeded random redactions as an NDJSON trace for Redaction_trace.tla", record)
 }
